@@ -28,12 +28,29 @@ def extra_gen(eng, table):
     return tp.TypeConstructor('D', [Q], [sup])
 
 
+def dependent_gen(eng, table):
+    """optionally a class K<v U, V : U> whose second parameter is bounded by the first"""
+    if not bool(eng.fresh_bool('with_dependent_class')):
+        return None
+    v = int(eng.fresh_int(0, 2, 'kvar'))
+    U = tp.TypeParameter('U', univ.VAR[v])
+    V = tp.TypeParameter('V', bound=U)
+    return tp.TypeConstructor('K', [U, V], [univ.ANY])
+
+
 def setup_world(eng, nmax, with_d, fixed_n=None, vary_bounds=True, fix=None):
-    table = gen_table(eng, nmax, fixed_n=fixed_n, vary_bounds=vary_bounds, fix=fix)
+    table = gen_table(eng, nmax, fixed_n=fixed_n, vary_bounds=vary_bounds,
+                      fix={k: v for k, v in (fix or {}).items() if k not in ('dependent', 'declarations')} or None)
     table.desc['vary_bounds'] = vary_bounds
     w = table.world()
     if not table_ok(table, w):
         return None
+    if fix is not None and fix.get('dependent'):
+        k = dependent_gen(eng, table)
+        if k is not None:
+            table.gens.append(k)
+            table.desc['K'] = str(k)
+            w = table.world()
     if with_d:
         d = extra_gen(eng, table)
         if d is not None:
@@ -46,6 +63,16 @@ def setup_world(eng, nmax, with_d, fixed_n=None, vary_bounds=True, fix=None):
 
 
 _QCACHE = {}
+
+
+def _Decl(t):
+    """a real class declaration whose get_type() yields (a type equal to) t"""
+    from src.ir import ast
+    sups = [ast.SuperClassInstantiation(s_, []) for s_ in t.supertypes]
+    if isinstance(t, tp.TypeConstructor):
+        return ast.ClassDeclaration(t.name, sups, ast.ClassDeclaration.REGULAR, fields=[], functions=[],
+                                    type_parameters=list(t.type_parameters))
+    return ast.ClassDeclaration(t.name, sups, ast.ClassDeclaration.REGULAR, fields=[], functions=[])
 
 
 def queries(table, w, depth):
@@ -70,9 +97,12 @@ def h_search(eng, fn, nmax, depth, with_d, fixed_n=None, vary_bounds=True, built
     table, w, qs = queries(table, w, depth)
     qs = list(qs)
     pool = list(table.classes) + list(table.gens) + [univ.ANY] + ([kt.Number, kt.Integer] if builtins else [])
+    if fix is not None and fix.get('declarations') and bool(eng.fresh_bool('pool_of_class_declarations')):
+        # the generator hands class declarations (whose get_type() yields the type) instead of types
+        pool = [_Decl(x) if not isinstance(x, tp.Builtin) else x for x in pool]
     if fn == 'find_irrelevant_type':
         X = tp.TypeParameter('TV', bound=table.classes[0])
-        qs = qs + [X, tp.TypeParameter('TU')]
+        qs = qs + [X, tp.TypeParameter('TU'), tp.TypeParameter('TW', bound=table.classes[-1])]
     elif depth == 1:
         # queries mentioning a type variable of the enclosing declaration that happens to be named like the
         # parameter a generic class forwards to its supertype (variable capture)
@@ -147,7 +177,8 @@ def h_search(eng, fn, nmax, depth, with_d, fixed_n=None, vary_bounds=True, built
                 if bound is not None:
                     obs.append(Ob('supertypes|below-bound|query=%s' % qshape, w.sub(t, w.snap(bound)), dict(case, result=show(t))))
             if concrete:
-                obs.append(Ob('%s|concrete|query=%s' % (fn, qshape), t[0] != 'C', dict(case, result=show(t))))
+                obs.append(Ob('%s|concrete|query=%s' % (fn, qshape), not w.mentions(t, lambda x: x[0] == 'C'),
+                              dict(case, result=show(t))))
         has_self = qt in terms
         if fn == 'find_supertypes' and bound is not None and not w.sub(qt, w.snap(bound)):
             pass            # the query itself is filtered by the bound
@@ -191,7 +222,10 @@ def jobs(tier):
         plan = [('find_subtypes', dict(nmax=2, depth=1, with_d=False, fixed_n=2, vary_bounds=False, builtins=False)),
                 ('find_irrelevant_type', dict(nmax=2, depth=1, with_d=True, fixed_n=2, vary_bounds=False, builtins=False,
                                               fix=dict(hvar=0),
-                                              qshapes=['A', 'B', 'Any', 'G<A>', 'G<*>', 'H<A>', 'H<*>', 'TV', 'TU']))]
+                                              qshapes=['A', 'B', 'Any', 'G<A>', 'G<*>', 'H<A>', 'H<*>', 'TV', 'TU', 'TW']))]
+        plan.append(('find_subtypes', dict(nmax=2, depth=1, with_d=False, fixed_n=2, vary_bounds=False, builtins=False,
+                                           fix=dict(hvar=0, hsup=1, gvar=0, dependent=True, declarations=True),
+                                           qshapes=['A', 'B', 'K<A, A>', 'K<A, B>', 'K<B, B>', 'K<out A, B>', 'H<A>', 'G<B>'])))
     else:
         plan = [('find_subtypes', dict(nmax=3, depth=1, with_d=False, fixed_n=3, builtins=False)),
                 ('find_subtypes', dict(nmax=2, depth=1, with_d=False)),
